@@ -176,7 +176,8 @@ UNIT = {
          },
          },
         {'kind': 'closure', 'src': T, 'path': 'impl EvaluatedDecisionTable::fn get_matching_rules_prioritized', 'key': 'hitpolicy::priority_compare',
-         'name': 'priority_compare', 'props': P, 'auto_props': A, 'ret': 'r', 'attrs': '#[verifier::rlimit(200)]',
+         # C12: sort_by panics on a comparator that is not a total order (more than 20 matching rules): the comparator IS prio_cmp, which is antisymmetric (lemma)
+         'name': 'priority_compare', 'props': ['C03', 'C12'], 'auto_props': A, 'ret': 'r', 'attrs': '#[verifier::rlimit(200)]',
          'closure_header': r'let compare = \|x: &&EvaluatedRule, y: &&EvaluatedRule\| \{',
          'signature': 'pub fn priority_compare(&self, x: &&EvaluatedRule, y: &&EvaluatedRule) -> core::cmp::Ordering',
          'impl_header': 'impl EvaluatedDecisionTable {',
@@ -289,9 +290,10 @@ UNIT['parts'] += [
 
 BOUNDED = {'C12': [{'name': 'single-structural-faults-never-crash', 'script': 'modelfaults.py', 'args': [], 'quick_args': ['--cover'], 'thorough_args': ['--models', '1000'],
                     'functions': ['dmntk_model::parse', 'ModelEvaluator::new (all builders of model-evaluator)', 'ModelEvaluator::evaluate_invocable for every decision / knowledge model / decision service with an empty context'],
-                    'bound': 'quick: the 15 example models of a greedy cover of every element and attribute name used by the 148 shipped example models (thorough: all 148), each with every single fault of the kinds delete element, '
-                             'duplicate element, empty text node, delete attribute, retarget href to a missing id (quick about 14 000 models, thorough about 64 000): parse + build + evaluate every invocable on the real code, '
-                             'no panic and no crash of the process. The recursive example N_0088 is excluded (known finding: stack overflow); self / ancestor retargeting is not generated.'}]}
+                    'bound': 'quick: the 19 example models of a greedy cover of every element name, attribute name and parent/child multiplicity used by the 148 shipped example models (thorough: all 148), each with every single fault of the kinds delete element, '
+                             'duplicate element, empty text node, delete / empty attribute, set attribute to a foreign non-ASCII text (from an even and from an odd byte offset), retarget href to a missing id, to its own element, make the target require it back, '
+                             'set a typeRef to the name of its own item definition (quick about 34 000 models, thorough about 150 000): parse + build + evaluate every invocable on the real code, '
+                             'no panic and no crash of the process. The recursive example N_0088 is excluded (known finding: stack overflow).'}]}
 
 BOUNDED['C03'] = [{'name': 'hit-policy-differential', 'script': 'hpdiff.py', 'args': [],
                    'functions': ['EvaluatedDecisionTable::evaluate_hit_policy_* (all 11)', 'get_matching_rules / get_matching_rules_prioritized / get_result', 'build_decision_table_evaluator', 'parse_decision_table'],
